@@ -101,12 +101,10 @@ def mechanism (notes : List String) : String :=
   else "; ".intercalate (ns.map (fun n =>
     match n with
     | "status-clash" => "LU-C a last-write-wins map received one user with both relationship statuses"
-    | "excl-flip" => "LU-A exclusion re-issues a base entry without relationship as HasRelationship because the subtracted entry has NoRelationship"
     | "excl-wild-has" => "LU-B exclusion with a wildcard in the base re-issues a base entry without relationship with the zero status HasRelationship"
     | "excl-wild-flip" => "LU-B exclusion with a wildcard in the base re-issues a subtracted NoRelationship entry as HasRelationship although the base lists that user as NoRelationship"
     | "excl-sub-cut" => "the subtracted operand was cut by the cycle guard below a rewrite that forgets hasCycle"
     | "excl-cycle" => "LU-F1 exclusion returns nothing because its subtracted operand reported a cycle"
-    | "filter-rel" => "LU-D expandDirect ignores the relation of the user filter"
     | "union-excl-lost" => "LU-E union forgets that an operand excepted a user from its wildcard (excludedUsers kept only when counted once per operand)"
     | "union-excl-overcount" => "LU-E union excepts a user from the wildcard although an operand covers it (excludedUsers counted per entry)"
     | "excl-excluded-unread" => "LU-H exclusion never reads the excludedUsers of its operands"
@@ -120,7 +118,7 @@ def mechanism (notes : List String) : String :=
 def propertyViolation (w : World) (f : Filter) (us : List String) (notes : List String) : Option String :=
   if dup us then some "an entry is returned twice"
   else match us.find? (fun u => !matchesFilter f u) with
-  | some u => some s!"entry {u} does not match the user filter: {mechanism (notes.filter (fun n => n = "filter-rel" || n = "DEVIATES"))}"
+  | some u => some s!"entry {u} does not match the user filter: {mechanism ["DEVIATES"]}"
   | none =>
     match us.find? (fun u => refClass w u = "F") with
     | some u => some s!"returned {u} does not hold the relation: {mechanism notes}"
@@ -157,7 +155,7 @@ def step (c impl : String) : String :=
     let clashy := notes.contains "status-clash"
     let modelErr := !(a1.errs ++ a2.errs ++ a1.swallowed ++ a2.swallowed).isEmpty
     -- 0. the two specifications agree on every subject in sight (matching the filter: the property is
-    -- about those; LU-D entries are judged by the filter test)
+    -- about those; anything else is judged by the filter test)
     let subjects := ((subjects w f) ++ (outs.flatMap (fun o => (parseOut o).getD [])).filter (matchesFilter f)).eraseDups
     let bridge := if !cs.stratified then none else
       subjects.findSome? (fun u =>
